@@ -215,8 +215,7 @@ package ollama
 //@   ensures result.1 == nil ==> 0 <= result.0.Start
 
 // ---- chunksums$1: the iterator body behind `for cs, err := range r.chunksums(...)` -----------
-//@ extern func (*Registry).parseNameExtended
-//@   modifies nothing
+// ((*Registry).parseNameExtended: was a trusted extern; contract with verified body at the end of this file)
 // ((*Registry).maxChunkingThreshold: was a trusted extern; contract with verified body in the coverage extension at the end of this file)
 // ((*Registry).newRequest: was a trusted extern; contract with verified body in the coverage extension at the end of this file)
 //@ func (*Registry).chunksums$1
@@ -454,6 +453,10 @@ package ollama
 //@   ensures result.1 == nil ==> ghost_got == 1 && ghost_parsed == 1
 //@   assert-at call fmt.Sprintf #1 : arg0 == "%s://%s/v2/%s/%s/manifests/%s" && len(arg1) == 5 && slog.AnyValue(arg1[0]) == slog.AnyValue(scheme)
 //@   assert-at call fmt.Sprintf #2 : arg0 == "%s://%s/v2/%s/%s/blobs/%s" && len(arg1) == 5 && slog.AnyValue(arg1[0]) == slog.AnyValue(scheme) && slog.AnyValue(arg1[4]) == slog.AnyValue(d)
+// a body that could not be read completely is an error, not a (shorter) manifest
+//@   ghost-at entry : ghost_read := 0
+//@   ghost-at after call io.ReadAll #1 : ghost_read := ite(result.1 == nil, 1, 0)
+//@   ensures result.1 == nil ==> ghost_read == 1
 
 // ---- ResolveLocal (Push's source manifest): decoded from the cache file of the digest the name
 // ---- resolves to (or of the digest given in the name)
